@@ -1201,12 +1201,26 @@ func predicateScanMatch(fb *fnBounds, f *ssa.Function, st ssa.Instruction, d lin
 	}
 	// acceptedAt: cond is pred(rest[phi]) for some predicate over one byte
 	acceptedAt := func(cond ssa.Value) bool {
-		call, ok := cond.(*ssa.Call)
-		if !ok || len(call.Call.Args) == 0 || call.Call.IsInvoke() {
-			return false
-		}
-		arg := call.Call.Args[len(call.Call.Args)-1]
-		if len(call.Call.Args) != 1 {
+		var arg ssa.Value
+		switch t := cond.(type) {
+		case *ssa.Call:
+			if len(t.Call.Args) != 1 || t.Call.IsInvoke() {
+				return false
+			}
+			arg = t.Call.Args[0]
+		case *ssa.BinOp:
+			// rest[n] == const
+			if t.Op != token.EQL {
+				return false
+			}
+			if _, ok := t.Y.(*ssa.Const); ok {
+				arg = t.X
+			} else if _, ok := t.X.(*ssa.Const); ok {
+				arg = t.Y
+			} else {
+				return false
+			}
+		default:
 			return false
 		}
 		switch lk := arg.(type) {
